@@ -83,7 +83,8 @@ func (rn *runner) runCase(shapeName string, c *sCase) {
 		v := rn.submit(path, canon, false)
 		res[path] = v
 		e.count.sound.Inc()
-		e.r.Outcome("sound:" + c.Rule + "->" + v.Class)
+		e.out("sound", c.Rule+"->"+v.Class)
+		e.r.Outcome("sound:" + wantStr(c.Want) + "->" + v.Class)
 		if v.Class == "PANIC" {
 			e.f.add(fmt.Sprintf("sound:panic:%s:%s:%s:%s", c.Rule, shapeName, rn.st.Name, path), rec(path, v))
 			continue
@@ -108,7 +109,7 @@ func (rn *runner) runCase(shapeName string, c *sCase) {
 	if res[pathFromBytes].Dec && len(c.Pre) == 0 {
 		v := rn.verify(c.Tx)
 		e.count.sound.Inc()
-		e.r.Outcome("sound:" + c.Rule + "->" + v.Class)
+		e.out("sound", c.Rule+"->"+v.Class)
 		if v.OK != c.Want {
 			e.f.add(fmt.Sprintf("sound:%s:%s:%s:%s", c.Rule, shapeName, rn.st.Name, "verifytx"), rec("verifytx", v))
 		}
@@ -133,8 +134,10 @@ func (rn *runner) encodings(base caseRec, canon []byte, canonV map[string]verdic
 		if s.Key {
 			class = "uncompressed-pubkey"
 		}
-		alts, names := respell(canon, s, []int{3, 5, 9})
+		alts, names := respell(canon, s, []int{1, 3, 5, 9})
 		for ai, alt := range alts {
+			// quick tier: verdicts for the shortest alternative only, hash and size for all
+			verdictHere := withVerdict && (e.thor || ai == 0)
 			for _, path := range paths {
 				cv := canonV[path]
 				e.count.enc.Inc()
@@ -149,9 +152,11 @@ func (rn *runner) encodings(base caseRec, canon []byte, canonV map[string]verdic
 				}
 				tx, derr := decodeVia(path, alt)
 				if derr != nil {
+					e.out("encoding", class+":"+path+":"+s.Field+":decoder-rejects")
 					e.r.Outcome("encoding:" + class + ":" + path + ":decoder-rejects")
 					continue
 				}
+				e.out("encoding", class+":"+path+":"+s.Field+":decoder-accepts")
 				e.r.Outcome("encoding:" + class + ":" + path + ":decoder-accepts")
 				if !cv.Dec {
 					e.f.add(fmt.Sprintf("encoding:%s:%s:%s:accepted-but-canonical-rejected", class, path, s.Field), mk("decoder accepts this spelling and rejects the canonical one"))
@@ -161,19 +166,26 @@ func (rn *runner) encodings(base caseRec, canon []byte, canonV map[string]verdic
 					e.f.add(fmt.Sprintf("encoding:%s:%s:%s:content-differs", class, path, s.Field), mk("decodes to different content"))
 					continue
 				}
+				w := 2 * (len(alt) + len(canon))
 				if tx.Hash() != cv.Hash {
-					e.f.add(fmt.Sprintf("encoding:%s:%s:%s:hash-differs", class, path, s.Field), mk(fmt.Sprintf("hash %s, canonical %s", tx.Hash().StringLE(), cv.Hash.StringLE())))
+					e.f.addLazy(fmt.Sprintf("encoding:%s:%s:%s:hash-differs", class, path, s.Field), w, func() *caseRec {
+						return mk(fmt.Sprintf("hash %s, canonical %s", tx.Hash().StringLE(), cv.Hash.StringLE()))
+					})
 				}
 				if tx.Size() != cv.Size {
-					e.f.add(fmt.Sprintf("encoding:%s:%s:%s:size-differs", class, path, s.Field), mk(fmt.Sprintf("size %d, canonical %d", tx.Size(), cv.Size)))
+					e.f.addLazy(fmt.Sprintf("encoding:%s:%s:%s:size-differs", class, path, s.Field), w, func() *caseRec {
+						return mk(fmt.Sprintf("size %d, canonical %d", tx.Size(), cv.Size))
+					})
 				}
-				if withVerdict {
+				if verdictHere {
 					v := rn.submit(path, alt, false)
 					e.count.encVerdict.Inc()
 					if v.OK != cv.OK {
-						r := mk(v.String() + " " + v.Err)
-						r.Want = cv.String()
-						e.f.add(fmt.Sprintf("encoding:%s:%s:%s:verdict-differs", class, path, s.Field), r)
+						e.f.addLazy(fmt.Sprintf("encoding:%s:%s:%s:verdict-differs", class, path, s.Field), 2*(len(alt)+len(canon)), func() *caseRec {
+							r := mk(v.String() + " " + v.Err)
+							r.Want = cv.String()
+							return r
+						})
 					}
 				}
 			}
@@ -184,16 +196,22 @@ func (rn *runner) encodings(base caseRec, canon []byte, canonV map[string]verdic
 // tuneBig finds the script length that makes the "big" shape exactly
 // MaxTransactionSize + delta bytes long.
 func (rn *runner) tuneBig(sh shape, delta int) (int, error) {
-	c, _, err := rn.buildCase(sh, mutation{Rule: "probe"}, 0)
-	if err != nil {
-		return 0, err
+	l := transaction.MaxScriptLength - 1
+	for try := 0; try < 4; try++ {
+		c, _, err := rn.buildCase(sh, mutation{Rule: "probe"}, l)
+		if err != nil {
+			return 0, err
+		}
+		d := len(c.Tx.Bytes()) - (transaction.MaxTransactionSize + delta)
+		if d == 0 {
+			return l, nil
+		}
+		l -= d
+		if l >= transaction.MaxScriptLength || l < 300 {
+			break
+		}
 	}
-	size := len(c.Tx.Bytes())
-	l := transaction.MaxScriptLength - (size - transaction.MaxTransactionSize - delta)
-	if l > transaction.MaxScriptLength || l < 300 {
-		return 0, fmt.Errorf("cannot tune the big shape: size %d", size)
-	}
-	return l, nil
+	return 0, fmt.Errorf("cannot tune the big shape")
 }
 
 func (e *env) runSound() map[string]any {
